@@ -69,7 +69,7 @@ def thresholds(tier):
     t = {
         "triples": 400000, "impl_match": 20000, "spec_strict_nonempty": 20000, "lax_only": 20, "removable_blocked": 2000,
         "commute_evals": 20000, "commute_match_only_swapped": 200, "or_backtracking_pattern_matches": 500,
-        "or_dispatch_pattern_matches": 20, "multi_output_node_matches": 100, "const_matches": 200, "attr_matches": 100,
+        "or_dispatch_pattern_matches": 20, "multi_output_node_matches": 100, "const_matches": 200, "constmatrix_evaluations": 1000, "constmatrix_impl_match": 80, "attr_matches": 100,
         "none_input_matches": 100, "hosts": 500, "patterns": 2000, "tri_impl_match": 100,
         "anchor:onnxscript.rewriter._matcher:_valid_to_replace": 5000,
         "anchor:onnxscript.rewriter._matcher:SimplePatternMatcher._multi_match": 1000,
@@ -120,6 +120,7 @@ def cases(tier, seed):
             out.append({"kind": "exh", "name": name, "pu": list(pu), "hu": list(hu), "chunk": i, "n": n, "seed": seed,
                         "pshard": name in ("t-b2", "t-attr")})
     out.append({"kind": "tri", "seed": seed})
+    out.append({"kind": "constmatrix", "seed": seed})
     for i0 in range(0, N_RANDOM[tier], RANDOM_PER_SPEC):
         out.append({"kind": "rand", "seed": seed, "i0": i0, "n": RANDOM_PER_SPEC})
     # quick tier also gets a small random sample (reach for the random generator, seed-dependent)
@@ -635,10 +636,63 @@ def run_tri(sp):
             "data": {"sigs": sorted(sigs), "viol_counts": nv}, "sample": None}
 
 
+PATTERN_CONSTANTS = [1.0, 2.0, 0.5, 1.5, 0, 1, -1.0, 1.000001, 1.00002, 0.1, [1.0], [0.5, 1.5], [1, 2], [0, 1]]
+HOST_CONSTANTS = {
+    "float32": [1.0, 2.0, 0.5, 1.5, 0.0, -1.0, 1.000001, 1.00002, 0.1, 0.1001, [1.0], [0.5, 1.5], [1.0, 2.0], [0.0, 1.0]],
+    "float64": [1.0, 0.5, 1.5, 1.000001, 1.00002, 0.1, [0.5, 1.5], [1.0]],
+    "float16": [1.0, 0.5, 1.5, 0.0, 0.1, 0.1001, [0.5, 1.5], [1.0, 2.0]],
+    "int64": [0, 1, 2, -1, [1], [0, 1], [1, 2]],
+    "int32": [0, 1, 2, [0, 1]],
+}
+
+
+def run_constmatrix(sp):
+    """Fixed family for rule S5 (numeric constants): every pattern constant (python float / int, scalar and list, on and just
+    beyond the tolerance, fractional values) against every constant tensor of a host (float32/float64/float16/int64/int32, the
+    value as it is STORED in that type, scalars and rank-1), as the right operand of Add (commutative), Sub, and swapped in Add."""
+    import numpy as np
+
+    N, V = gen.N, gen.V
+    pats = []
+    for c in PATTERN_CONSTANTS:
+        for op in ("Add", "Sub"):
+            P = {"nodes": [N(op, [V("x"), ["c", c]])], "outs": [["o", 0, 0]]}
+            e = compile_pattern(P)
+            e.idx = len(pats)
+            pats.append(e)
+    ev, viol, sigs = {"constmatrix_patterns": len(pats)}, [], set()
+    for dt, vals in HOST_CONSTANTS.items():
+        for val in vals:
+            stored = np.asarray(val, dtype=np.dtype(dt)).tolist()      # what the tensor holds (0.1 as float16 is 0.0999755859375)
+            for op, ins in (("Add", ["a", "c"]), ("Sub", ["a", "c"]), ("Add", ["c", "a"])):
+                G = {"inputs": ["a", "b"], "inits": {"c": stored}, "dtype": dt,
+                     "nodes": [{"op": op, "in": ins, "out": ["t0_0"], "attrs": {}}], "outputs": ["t0_0"]}
+                host = Host(G)
+                ev["constmatrix_hosts"] = ev.get("constmatrix_hosts", 0) + 1
+                for e in pats:
+                    if e.pat is None or (op, "") != e.root_op:
+                        continue
+                    for commute in _modes(e):
+                        for removable in (False, True):
+                            im, lx = judge(e, host, 0, removable, commute, ev, viol, sigs)
+                            ev["constmatrix_evaluations"] = ev.get("constmatrix_evaluations", 0) + 1
+                            if im:
+                                ev["constmatrix_impl_match"] = ev.get("constmatrix_impl_match", 0) + 1
+    nv = {}
+    for v in viol:
+        nv[v["key"]] = nv.get(v["key"], 0) + 1
+    return {"status": "ok", "viol": [v for v in viol if v["what"]], "events": ev, "nontrivial": True, "sig": None,
+            "data": {"sigs": sorted(sigs), "viol_counts": nv}, "sample": None}
+
+
 def run_case(sp):
     import time
 
     t0 = time.process_time()
+    if sp["kind"] == "constmatrix":
+        r = run_constmatrix(sp)
+        r["events"]["cpu_ms"] = int((time.process_time() - t0) * 1000)
+        return r
     r = run_exh(sp) if sp["kind"] == "exh" else (run_tri(sp) if sp["kind"] == "tri" else run_rand(sp))
     r["events"]["cpu_ms"] = int((time.process_time() - t0) * 1000)
     return r
